@@ -14,6 +14,94 @@ theorem length16 {α} (l : List α) (h : l.length = 16) :
 /-- the sixteen IPv4 / UDP field ids in header order -/
 def ids4 : List String := Gen.IPv4F.all ++ Gen.UDPF.all
 
+/-- the shape of the decompressor's state on the IPv4 / UDP stack (see `ipv6_udp_shape`) -/
+theorem ipv4_udp_shape (p : Packet) (r : Rule) (pf16 restF : List Field) (rf16 restR : List RuleField)
+    (hp : p.fields = pf16 ++ restF) (hr : r.fields = rf16 ++ restR) (h16p : pf16.length = 16) (h16r : rf16.length = 16)
+    (hids : pf16.map (·.id) = ids4)
+    (hn : r.nature = .compression) (hdir : ∀ rf ∈ r.fields, Spec.dirApplies p.dir rf.dir = true)
+    (happ : Spec.applicable p r = true) (hfit : AllFitsC p.fields r.fields)
+    (hncR : ∀ rf ∈ restR, rf.cda ≠ .compute)
+    (l3 : (fv pf16 3).bits.length = 16) (l9 : (fv pf16 9).bits.length = 16) (l14 : (fv pf16 14).bits.length = 16) (l15 : (fv pf16 15).bits.length = 16) :
+    ∃ c3 c9 c14 c15 : Bool,
+      assemble r.fields (zeroed p.fields r.fields) ++ [(Gen.payloadId, ⟨p.payload.bits, .right⟩)] =
+        stack4 (fv pf16 0) (fv pf16 1) (fv pf16 2) (sel c3 (ph 16) (fv pf16 3)) (fv pf16 4) (fv pf16 5) (fv pf16 6) (fv pf16 7) (fv pf16 8) (sel c9 (ph 16) (fv pf16 9)) (fv pf16 10) (fv pf16 11) (fv pf16 12) (fv pf16 13) (sel c14 (ph 16) (fv pf16 14)) (sel c15 (ph 16) (fv pf16 15)) (restOf restF restR p.payload) ∧
+      computeEntries r.fields 0 =
+        (if c3 then [(⟨3, Gen.IPv4F.TOTAL_LENGTH⟩ : ComputeEntry)] else []) ++
+          ((if c9 then [⟨9, Gen.IPv4F.HEADER_CHECKSUM⟩] else []) ++
+            ((if c14 then [⟨14, Gen.UDPF.LENGTH⟩] else []) ++ (if c15 then [⟨15, Gen.UDPF.CHECKSUM⟩] else []))) ∧
+      restF.length = restR.length ∧ AllFitsC restF restR ∧ Spec.allMatch restF restR = true := by
+  obtain ⟨x0, x1, x2, x3, x4, x5, x6, x7, x8, x9, x10, x11, x12, x13, x14, x15, rfl⟩ := length16 pf16 h16p
+  obtain ⟨g0, g1, g2, g3, g4, g5, g6, g7, g8, g9, g10, g11, g12, g13, g14, g15, rfl⟩ := length16 rf16 h16r
+  simp only [ids4, Gen.IPv4F.all, Gen.UDPF.all, List.map_cons, List.map_nil, List.cons_append, List.nil_append, List.cons.injEq, and_true] at hids
+  obtain ⟨i0, i1, i2, i3, i4, i5, i6, i7, i8, i9, i10, i11, i12, i13, i14, i15⟩ := hids
+  have happ' := happ
+  unfold Spec.applicable at happ'
+  rw [hn] at happ'
+  have hfilter : r.fields.filter (fun f => Spec.dirApplies p.dir f.dir) = r.fields := by
+    rw [List.filter_eq_self]; exact hdir
+  simp only [hfilter, Bool.and_eq_true, beq_iff_eq] at happ'
+  obtain ⟨hl, hm⟩ := happ'
+  rw [hp, hr] at hl hm hfit
+  have hlrest : restF.length = restR.length := by simpa using hl
+  simp only [List.cons_append, List.nil_append, Spec.allMatch, Bool.and_eq_true] at hm
+  obtain ⟨m0, m1, m2, m3, m4, m5, m6, m7, m8, m9, m10, m11, m12, m13, m14, m15, mrest⟩ := hm
+  have idof : ∀ (pf : Field) (rf : RuleField), Spec.fieldMatches pf rf = true → pf.id = rf.id := by
+    intro pf rf h; unfold Spec.fieldMatches at h; simp only [Bool.and_eq_true, beq_iff_eq] at h; exact h.1
+  have j0 := idof _ _ m0; have j1 := idof _ _ m1; have j2 := idof _ _ m2; have j3 := idof _ _ m3
+  have j4 := idof _ _ m4; have j5 := idof _ _ m5; have j6 := idof _ _ m6; have j7 := idof _ _ m7
+  have j8 := idof _ _ m8; have j9 := idof _ _ m9; have j10 := idof _ _ m10; have j11 := idof _ _ m11
+  have j12 := idof _ _ m12; have j13 := idof _ _ m13; have j14 := idof _ _ m14; have j15 := idof _ _ m15
+  simp only [List.cons_append, List.nil_append] at hfit
+  obtain ⟨f0, hfit⟩ := fitsC_cons _ _ _ _ hfit
+  obtain ⟨f1, hfit⟩ := fitsC_cons _ _ _ _ hfit
+  obtain ⟨f2, hfit⟩ := fitsC_cons _ _ _ _ hfit
+  obtain ⟨f3, hfit⟩ := fitsC_cons _ _ _ _ hfit
+  obtain ⟨f4, hfit⟩ := fitsC_cons _ _ _ _ hfit
+  obtain ⟨f5, hfit⟩ := fitsC_cons _ _ _ _ hfit
+  obtain ⟨f6, hfit⟩ := fitsC_cons _ _ _ _ hfit
+  obtain ⟨f7, hfit⟩ := fitsC_cons _ _ _ _ hfit
+  obtain ⟨f8, hfit⟩ := fitsC_cons _ _ _ _ hfit
+  obtain ⟨f9, hfit⟩ := fitsC_cons _ _ _ _ hfit
+  obtain ⟨f10, hfit⟩ := fitsC_cons _ _ _ _ hfit
+  obtain ⟨f11, hfit⟩ := fitsC_cons _ _ _ _ hfit
+  obtain ⟨f12, hfit⟩ := fitsC_cons _ _ _ _ hfit
+  obtain ⟨f13, hfit⟩ := fitsC_cons _ _ _ _ hfit
+  obtain ⟨f14, hfit⟩ := fitsC_cons _ _ _ _ hfit
+  obtain ⟨f15, hfit⟩ := fitsC_cons _ _ _ _ hfit
+  have n0 : g0.cda ≠ .compute := not_compute_of_id x0 g0 f0 (by rw [← j0, i0]; decide)
+  have n1 : g1.cda ≠ .compute := not_compute_of_id x1 g1 f1 (by rw [← j1, i1]; decide)
+  have n2 : g2.cda ≠ .compute := not_compute_of_id x2 g2 f2 (by rw [← j2, i2]; decide)
+  have n4 : g4.cda ≠ .compute := not_compute_of_id x4 g4 f4 (by rw [← j4, i4]; decide)
+  have n5 : g5.cda ≠ .compute := not_compute_of_id x5 g5 f5 (by rw [← j5, i5]; decide)
+  have n6 : g6.cda ≠ .compute := not_compute_of_id x6 g6 f6 (by rw [← j6, i6]; decide)
+  have n7 : g7.cda ≠ .compute := not_compute_of_id x7 g7 f7 (by rw [← j7, i7]; decide)
+  have n8 : g8.cda ≠ .compute := not_compute_of_id x8 g8 f8 (by rw [← j8, i8]; decide)
+  have n10 : g10.cda ≠ .compute := not_compute_of_id x10 g10 f10 (by rw [← j10, i10]; decide)
+  have n11 : g11.cda ≠ .compute := not_compute_of_id x11 g11 f11 (by rw [← j11, i11]; decide)
+  have n12 : g12.cda ≠ .compute := not_compute_of_id x12 g12 f12 (by rw [← j12, i12]; decide)
+  have n13 : g13.cda ≠ .compute := not_compute_of_id x13 g13 f13 (by rw [← j13, i13]; decide)
+  simp only [fv, List.getElem?_cons_succ, List.getElem?_cons_zero, Option.map_some, Option.getD_some] at l3 l9 l14 l15 ⊢
+  refine ⟨decide (g3.cda = .compute), decide (g9.cda = .compute), decide (g14.cda = .compute), decide (g15.cda = .compute), ?_, ?_, hlrest, hfit, mrest⟩
+  · rw [hp, hr]
+    have e3 : g3.cda = .compute → g3.length = 16 := fun hc => by rw [compute_len x3 g3 f3 hc]; exact l3
+    have e9 : g9.cda = .compute → g9.length = 16 := fun hc => by rw [compute_len x9 g9 f9 hc]; exact l9
+    have e14 : g14.cda = .compute → g14.length = 16 := fun hc => by rw [compute_len x14 g14 f14 hc]; exact l14
+    have e15 : g15.cda = .compute → g15.length = 16 := fun hc => by rw [compute_len x15 g15 f15 hc]; exact l15
+    simp only [List.cons_append, List.nil_append, zeroed, assemble, sideOf, n0, n1, n2, n4, n5, n6, n7, n8, n10, n11, n12, n13, if_false, stack4, restOf,
+      ← j0, ← j1, ← j2, ← j3, ← j4, ← j5, ← j6, ← j7, ← j8, ← j9, ← j10, ← j11, ← j12, ← j13, ← j14, ← j15,
+      i0, i1, i2, i3, i4, i5, i6, i7, i8, i9, i10, i11, i12, i13, i14, i15]
+    by_cases c3 : g3.cda = .compute <;> by_cases c9 : g9.cda = .compute <;> by_cases c14 : g14.cda = .compute <;> by_cases c15 : g15.cda = .compute <;>
+      simp [c3, c9, c14, c15, ph, sel, e3, e9, e14, e15] <;>
+      exact ⟨rfl, rfl, rfl, rfl, rfl, rfl, rfl, rfl, rfl, rfl, rfl, rfl, rfl, rfl, rfl, rfl⟩
+  · rw [hr, computeEntries_append, computeEntries_nil restR _ hncR, List.append_nil]
+    simp only [computeEntries, n0, n1, n2, n4, n5, n6, n7, n8, n10, n11, n12, n13, if_false, ← j3, ← j9, ← j14, ← j15, i3, i9, i14, i15]
+    have q1 : Gen.IPv4F.TOTAL_LENGTH = "IPv4:Total Length" := rfl
+    have q2 : Gen.IPv4F.HEADER_CHECKSUM = "IPv4:Header Checksum" := rfl
+    have q3 : Gen.UDPF.LENGTH = "UDP:Length" := rfl
+    have q4 : Gen.UDPF.CHECKSUM = "UDP:Checksum" := rfl
+    by_cases c3 : g3.cda = .compute <;> by_cases c9 : g9.cda = .compute <;> by_cases c14 : g14.cda = .compute <;> by_cases c15 : g15.cda = .compute <;>
+      simp [c3, c9, c14, c15, q1, q2, q3, q4]
+
 /-- C01 on the IPv4 / UDP stack: any subset of total length, header checksum, UDP length and UDP checksum may be
     *compute*; for packets whose four fields are valid (`Valid4`) decompress ∘ compress is the identity -/
 theorem roundtrip_ipv4_udp (p : Packet) (r : Rule) (pf16 restF : List Field) (rf16 restR : List RuleField)
